@@ -237,7 +237,7 @@ def check(run):
         worst = gen_formulas.self_check(models, trw, n=200, seed=run.seed)
         run.extra["translator_ir_vs_source_ulps"] = worst
         run.obligation("translator-self-check",
-                       all(v <= 16 for v in worst.values()), str(worst))
+                       all(v <= 64 for v in worst.values()), str(worst))
     except gen_formulas.TranslationError as e:
         run.obligation("translation", False,
                        f"formula body outside the translator's idiom: {e}")
